@@ -62,6 +62,7 @@ class Interp(object):
         self.overrides = {}       # fn path -> python callable(interp, st, args) -> (ret, st)
         self.static_cells = {}
         self.firstset_of = {}
+        self.elem_preds = None    # while a list-loop body is probed: predicates met on the symbolic history element
         self.late_join = set()    # functions whose loop-free branches are joined only at the function exit (refinement)
         self._nz_depth = 0
         self.firstset_bv = {}     # source bits (with positions) -> the BV of its lowest set bit
@@ -161,6 +162,12 @@ class Interp(object):
             L |= B.must(c)
         if not L:
             return None
+        # a path condition built from this very bit (`b & other`, `!(b | other)`) carries the pseudo-literal naming b
+        sl = B.selflit(bit)
+        if sl in L:
+            return True
+        if (sl[0], False) in L:
+            return False
         if bit.kind == 's':
             r = bit
             for (v, p) in L:
@@ -744,7 +751,10 @@ class Interp(object):
                 return C1
             return B.atom_bit(B.atom('tokeq', tuple(sorted([a.name, b.name]))))
         if isinstance(a, Tok) or isinstance(b, Tok):
-            return B.atom_bit(B.atom('tokeq2', (a, b), payload=(a, b), deps=self.deps_of(a) | self.deps_of(b)))
+            bit_ = B.atom_bit(B.atom('tokeq2', (a, b), payload=(a, b), deps=self.deps_of(a) | self.deps_of(b)))
+            if self.elem_preds is not None and any(isinstance(x, Tok) and str(x.name).startswith('hist.elem') for x in (a, b)):
+                self.elem_preds.append(bit_)
+            return bit_
         return None
 
     def first_set(self, bv, w):
@@ -1516,6 +1526,12 @@ class Interp(object):
             elif k == 'drop':
                 bb = t['t']
             elif k == 'call':
+                if (t.get('res') or {}).get('path', '').startswith('<linked_list::Iter<') and t['res']['path'].endswith('::next') \
+                        and not getattr(fr, 'no_bit_loop', False):
+                    nxt = self.try_list_loop(st, fr, bb, t)
+                    if nxt is not None:
+                        st, bb = nxt
+                        continue
                 st = self.do_call(st, fr, t)
                 if isinstance(st, ForkReq):
                     fk = st
@@ -1721,6 +1737,154 @@ class Interp(object):
         self.ev('bit-loop', fr.fname, t.get('at'), ck['order'])
         return cur, outside[0]
 
+    # ------------------------------------------------------------------ loops over the (opaque) history list
+    def try_list_loop(self, st, fr, bb, t):
+        """`for x in history.iter() { .. }` over a list this analysis knows nothing about, written by hand instead of through
+        `filter(..).count()`.  Handled when the body is a finite-state scan driven by ONE predicate p(x) on the element:
+          - an iteration with p false leaves every loop-carried local unchanged and does not leave the loop;
+          - iterations with p true step the (concrete) loop-carried locals s0 -> s1 -> s2 .., and the k-th of them may return
+            from the function.
+        Then only the NUMBER n of elements satisfying p matters: the function returns (with the k-th iteration's return state)
+        iff n >= k, otherwise the loop ends with the locals of s_n.  n is the same abstract count term, and `n >= j` the same
+        atom, that `filter(p).count() >= j` produces - the repetition rules see one canonical "seen j times" predicate.
+        Returns (state, block to continue at) or None when the loop is not of this kind."""
+        from .summaries import some, none, OPT
+        body = fr.fn
+        inner, loops = self.loopinfo(body)
+        h = inner.get(bb)
+        if h is None or t.get('dst') is None or t['dst']['p']:
+            return None
+        L = loops[h]
+        if t['t'] not in L:
+            return None
+        latches = [u for u in L if h in successors(body['blocks'][u]['term'])]
+        if not latches or any(body['blocks'][u]['term']['k'] != 'goto' for u in latches):
+            return None
+        r0 = self.operand(st, fr, t['a'][0])
+        if not isinstance(r0, Ref):
+            return None
+        try:
+            itv = self.read_at(st, r0.cell, r0.path)
+        except Undecided:
+            return None
+        if not (isinstance(itv, Struct) and itv.ty.startswith('linked_list::Iter')):
+            return None
+        ti = self.tyinfo(itv.ty)
+        elem_ty = ti['targs'][-1] if ti and ti.get('targs') else None
+        ty = body['locals'][t['dst']['l']]
+        key = (fr.fname, bb)
+        ck = self._bit_loop_cache.get(('list',) + key)
+        if ck is None:
+            N = len(body['blocks'])
+            marker = len(body['locals'])
+            blocks2 = list(body['blocks'])
+            for u in latches:
+                blk = dict(blocks2[u])
+                tt = dict(blk['term'])
+                tt['t'] = N
+                blk['term'] = tt
+                blocks2[u] = blk
+            blocks2.append({'st': [{'dst': {'l': marker, 'p': []}, 'rv': {'k': 'use', 'o': {'k': 'int', 'ty': 'usize', 'v': '1', 'name': None}}}],
+                            'term': {'k': 'return'}})
+            body2 = dict(body)
+            body2['blocks'] = blocks2
+            body2['locals'] = list(body['locals']) + ['usize']
+            ck = {'body2': body2, 'marker': marker}
+            self._bit_loop_cache[('list',) + key] = ck
+        body2, marker = ck['body2'], ck['marker']
+        elem_cell = ('static', 'histelem')
+        elem = self.fresh('hist.elem', elem_ty)
+        self.elem_preds = []
+        carried = [c for c in st.store if c[0] == fr.id and c != r0.cell]
+        outside0 = {c: v for c, v in st.store.items() if c[0] != fr.id and c[0] != 'static'}
+
+        def one(state, forced):
+            s2 = State(dict(state.store), state.pc + tuple(forced))
+            s2.store[elem_cell] = elem
+            self.write(s2, fr.id, t['dst'], some(Ref(elem_cell), ty))
+            fr2 = Frame(fr.id, fr.fname, body2, False)
+            fr2.no_bit_loop = True
+            out = self.exec_region(s2, fr2, t['t'], EXIT)
+            if out is None or fr2.escapes:
+                raise Undecided('an iteration of the list loop in %s diverges' % fr.fname)
+            for c, v in out.store.items():
+                if c[0] != fr.id and c[0] != 'static' and outside0.get(c) is not v and outside0.get(c) != v:
+                    raise Undecided('the list loop in %s has effects outside its own locals' % fr.fname)
+            latched = (fr.id, marker) in out.store
+            out.store.pop((fr.id, marker), None)
+            return out, latched
+        saved = (dict(self.asserts_ok), dict(self.asserts_bad), dict(self.panics), list(self.events))
+        try:
+            try:
+                one(st, ())                        # discovers the predicate(s) on the element
+            except Undecided as e:
+                self._last_preds = 'probe: %s' % e
+                return None
+            preds = []
+            for b_ in self.elem_preds:
+                if b_ not in preds and B.bnot(b_) not in preds:
+                    preds.append(b_)
+            self._last_preds = preds
+            if len(preds) != 1:
+                return None
+            p = preds[0]
+            try:
+                out_no, latched = one(st, (B.bnot(p),))
+                if not latched or any(out_no.store.get(c) != st.store[c] for c in carried):
+                    return None
+                states = [st]
+                ret_state = None
+                for k in range(1, 5):
+                    out_k, latched = one(states[-1], (p,))
+                    if not latched:
+                        ret_state = out_k
+                        break
+                    if any(not self._concrete(out_k.store.get(c)) for c in carried if out_k.store.get(c) != states[-1].store[c]):
+                        return None
+                    nxt = State(dict(states[-1].store), st.pc)
+                    for c in carried:
+                        nxt.store[c] = out_k.store[c]
+                    if all(nxt.store[c] == states[-1].store[c] for c in carried):
+                        break                      # fixpoint: further matches change nothing
+                    states.append(nxt)
+                else:
+                    return None
+            except Undecided:
+                return None
+        finally:
+            self.asserts_ok.clear(); self.asserts_ok.update(saved[0])
+            self.asserts_bad.clear(); self.asserts_bad.update(saved[1])
+            self.panics.clear(); self.panics.update(saved[2])
+            self.events[:] = saved[3]
+            self.elem_preds = None
+        cnt = Term('count', (self.snapshot(st, itv), boolv(p)), 64)
+
+        def ge(j):
+            return self.binop('Ge', cnt, BV.const(j, 64), fr.fname, t.get('at')).bits[0]
+        cur = State(dict(st.store), st.pc)
+        for j in range(1, len(states)):
+            g = ge(j)
+            for c in carried:
+                if states[j].store[c] != cur.store[c]:
+                    cur.store[c] = self.merge(g, states[j].store[c], cur.store[c])
+        if ret_state is not None:
+            g = ge(len(states))
+            rs = State(dict(ret_state.store), st.pc + (g,))
+            rs.exited = True
+            fr.escapes.append((rs.pc, rs))
+            cur.pc = st.pc + (B.bnot(g),)
+        self.write(cur, fr.id, t['dst'], none(ty))
+        self.ev('list-loop', fr.fname, t.get('at'), len(states))
+        return cur, t['t']
+
+    @staticmethod
+    def _concrete(v):
+        if isinstance(v, BV):
+            return v.known()
+        if isinstance(v, (Struct, Enum)):
+            return all(Interp._concrete(x) for x in v.fields if isinstance(x, V))
+        return isinstance(v, Ref) or v is None or not isinstance(v, V)
+
     def deref_all(self, st, a):
         """follow references (&&T ..) to the value, as far as the store knows them"""
         n = 0
@@ -1837,8 +2001,16 @@ class Interp(object):
         path = (res or {}).get('path') or (t['f'].get('path') if t['f'].get('k') == 'fn' else None)
         args = [self.operand(st, fr, a) for a in t['a']]
         if path is None:
-            # call through a fn pointer / closure value
+            # call through a fn pointer / closure value: decided when the pointer is a known fn item
             fv = self.operand(st, fr, t['f'])
+            if isinstance(fv, Ref):
+                fv = self.deref_all(st, fv)
+            if isinstance(fv, FnItem) or (isinstance(fv, Struct) and fv.ty.startswith('closure:')):
+                ret, st2 = self.call_closure(st, fv, args)
+                if st2 is None or t['t'] is None or ret is BOTTOM:
+                    return None
+                self.write(st2, fr.id, t['dst'], ret)
+                return st2
             raise Undecided('indirect call %r' % (fv,))
         self.calls_seen[path] = self.calls_seen.get(path, 0) + 1
         self.exec_sites.add((fr.fname, t.get('at'), path))
@@ -1859,6 +2031,12 @@ class Interp(object):
             ret, st2 = scripted[n], st
         elif path in self.local_summaries and path not in self.no_summary:
             ret, st2 = self.local_summaries[path](self, st, fr, t, args)
+        elif path in self.fns and self.fns[path].get('derived') and (self.fns[path].get('trait_impl') or '').endswith('PartialEq') \
+                and path.endswith(('::eq', '::ne')) and len(args) == 2:
+            # a derived PartialEq is structural equality: decided on the two values (also when one of them is an opaque token,
+            # whose fields a field-by-field walk of the derived body could not name)
+            from .summaries import _cmp_values
+            ret, st2 = _cmp_values(self, st, 'eq' if path.endswith('::eq') else 'ne', args[0], args[1]), st
         elif path in self.fns and (res is None or res.get('local', True)):
             if self.fns[path].get('kind') == 'Closure' and len(args) == 2 and isinstance(args[1], Struct) \
                     and args[1].ty in ('tuple', '()') and self.fns[path]['argc'] == 1 + len(args[1].fields):
